@@ -142,7 +142,9 @@ def dist_traces(tier: str):
     with tensor parameters mixing the degenerate and the regular sets."""
     rates = [0.0, 0.125, 0.5, 1.0, 2.5, 4.0, 6.0] if tier == "quick" else [0.0, 0.001, 0.125, 0.25, 0.5, 1.0, 1.5, 2.5, 3.0, 4.0, 5.0, 6.0]
     norm = [(0.0, 1.0), (-1.5, 0.5), (2.0, 2.0), (0.25, 0.25), (0.0, 2.0 ** -10), (0.0, 1024.0), (-100.0, 64.0)]
-    lognorm = [(0.0, 0.5), (0.5, 0.25), (-0.5, 0.5), (0.0, 1.0), (0.0, 2.0 ** -5), (-3.0, 0.25)]
+    lognorm = [(0.0, 0.5), (0.5, 0.25), (-0.5, 0.5), (0.0, 1.0), (0.0, 2.0 ** -5), (-3.0, 0.25),
+               # narrow log-normals: exp(scale^2) - 1 must not be computed by subtraction in float32
+               (0.0, 0.003), (0.5, 0.001), (0.0, 2.0 ** -9)]
     if tier != "quick":
         norm += [(5.0, 4.0), (-0.75, 0.125), (1.0, 8.0), (0.0, 2.0 ** -16), (3.0, 0.5)]
         lognorm += [(1.0, 0.25), (-1.0, 1.0), (0.25, 0.125), (2.0, 2.0 ** -4)]
